@@ -34,8 +34,9 @@ StepUn(e) ==
        /\ \A i \in 1..Len(e.probes) : (e.probes[i][3] = 1) = ContainsT(e.r, <<e.probes[i][1], e.probes[i][2]>>),
        "rectangle_method_transcription", [r |-> e.r])
 
+StepXRes(e) == e.ev = "xres" /\ Report(e.case, XResFails(e.r, e.items), [r |-> e.r, items |-> e.items])
 Next == /\ l <= NRec
-        /\ LET e == Rec[l] IN StepCase(e) \/ StepBin(e) \/ StepFarBin(e) \/ StepUn(e) \/ StepPanic(e)
+        /\ LET e == Rec[l] IN StepCase(e) \/ StepBin(e) \/ StepFarBin(e) \/ StepUn(e) \/ StepXRes(e) \/ StepPanic(e)
         /\ l' = l + 1
 Spec == Init /\ [][Next]_l
 
